@@ -134,7 +134,7 @@ func TestVerifReplay(t *testing.T) {
 		args = append(args, "-tags", bc.Tags)
 	}
 	args = append(args, "./"+rel)
-	sh := fmt.Sprintf("#!/bin/sh\n# replays the solver model in model.json against the real code in /repo\ncd /repo && GOFLAGS=-mod=mod GOPROXY=off GOSUMDB=off GOTOOLCHAIN=local %s go %s\n", goarchEnv(bc), strings.Join(args, " "))
+	sh := fmt.Sprintf("#!/bin/sh\n# replays the solver model in model.json against the real code in /repo\ncd %s && GOFLAGS=-mod=mod GOPROXY=off GOSUMDB=off GOTOOLCHAIN=local %s go %s\n", repoDir, goarchEnv(bc), strings.Join(args, " "))
 	os.WriteFile(filepath.Join(dir, "run.sh"), []byte(sh), 0o755)
 	out, _ := runGo(bc, args, 10*time.Minute)
 	os.WriteFile(filepath.Join(dir, "output.txt"), []byte(out), 0o644)
@@ -265,7 +265,7 @@ func sweepReplayImpl(tmplPath, ck, testName, rel, cfg, dir string, extra []strin
 	} else {
 		args = append(args, "./"+rel)
 	}
-	sh := fmt.Sprintf("#!/bin/sh\n# differential sweep of the real API against the math/big reference predicate\ncd /repo && GOFLAGS=-mod=mod GOPROXY=off GOSUMDB=off GOTOOLCHAIN=local %s go %s\n", goarchEnv(bc), strings.Join(args, " "))
+	sh := fmt.Sprintf("#!/bin/sh\n# differential sweep of the real API against the math/big reference predicate\ncd %s && GOFLAGS=-mod=mod GOPROXY=off GOSUMDB=off GOTOOLCHAIN=local %s go %s\n", repoDir, goarchEnv(bc), strings.Join(args, " "))
 	os.WriteFile(filepath.Join(dir, "run.sh"), []byte(sh), 0o755)
 	out, _ := runGo(bc, args, 15*time.Minute)
 	os.WriteFile(filepath.Join(dir, "output.txt"), []byte(out), 0o644)
